@@ -163,11 +163,25 @@ def _parse_get_value(txt):
     return t
 
 
+_STREAK = {"z3_unknown": 0}
+
+
 def quick_sat(assertions, timeout_ms):
-    """feasibility: z3 with a short budget, then cvc5 in-process. -> 'sat' | 'unsat' | 'unknown'"""
+    """feasibility: z3 with a short budget, then cvc5 in-process (cvc5 first once z3 keeps giving up: string-heavy
+    units). -> 'sat' | 'unsat' | 'unknown'"""
+    if _STREAK["z3_unknown"] >= 3:
+        v2, _ = cvc5_inproc(assertions, timeout_ms)
+        if v2 != "unknown":
+            return v2
+        v, _m, _w, _dt, _s = z3_check(assertions, min(timeout_ms, 400), want_model=False)
+        if v != "unknown":
+            _STREAK["z3_unknown"] = 0
+        return v
     v, _m, _w, _dt, _s = z3_check(assertions, min(timeout_ms, 400), want_model=False)
     if v != "unknown":
+        _STREAK["z3_unknown"] = 0
         return v
+    _STREAK["z3_unknown"] += 1
     v2, _ = cvc5_inproc(assertions, timeout_ms)
     return v2
 
